@@ -95,7 +95,8 @@ ExInit == [st |-> "wait", pos |-> 1, pm |-> {}, rest |-> [i \in 1..NG |-> BaseEn
            ssn |-> [i \in 1..NG |-> IF scn.g[i].kind = "opt" /\ scn.g[i].ss /\ ~UsesRR THEN 1 ELSE 0],   \* standard unpickling calls it
            out |-> "ok"]
 
-Init == /\ scn \in Scns
+InitWith(S) ==
+        /\ scn \in S
         /\ pc = (IF scn.t = "graph" THEN "dump" ELSE "scan")
         /\ cq = (IF scn.t = "cls" THEN ClsQueue(scn) ELSE <<>>)
         /\ cs = ScanInit /\ cached = "none" /\ created = "ok" /\ res0 = [outcome |-> "none"]
@@ -103,6 +104,7 @@ Init == /\ scn \in Scns
         /\ memo = {} /\ gs = [i \in 1..NG |-> <<>>] /\ ops = <<>> /\ claims = {}
         /\ ex = [e \in 1..(2 * K) |-> ExInit]
         /\ tl = [t \in 1..(2 + K) |-> TLInit]
+Init == InitWith(Scns)
 
 (* ---------------- cls / leaf families ---------------- *)
 ScanOne ==
